@@ -151,6 +151,9 @@ func (p *printer) raw(t *Term) string {
 			as = append(as, p.expr(a))
 			ss = append(ss, a.Sort.String())
 		}
+		if t.Name == "bv2nat" && len(as) == 1 {
+			return "(bv2nat " + as[0] + ")" // built-in conversion, not an uninterpreted function
+		}
 		p.declare(q, fmt.Sprintf("(declare-fun %s (%s) %s)", q, strings.Join(ss, " "), t.Sort))
 		if len(as) == 0 {
 			return q
